@@ -76,9 +76,9 @@ func features(x string) []string {
 	if blankHeredoc {
 		set["angle-word"] = true
 	}
-	tokensOnLine := 0     // real tokens seen since the last newline
-	openOnLine := false   // a standalone `{` was seen on this line
-	closeOnLine := false  // a standalone `}` was seen on this line
+	tokensOnLine := 0    // real tokens seen since the last newline
+	openOnLine := false  // a standalone `{` was seen on this line
+	closeOnLine := false // a standalone `}` was seen on this line
 	lastTokWasOpen := false
 	anyToken := false
 	startTok := func() {
